@@ -115,10 +115,7 @@ class Model:
     if k == "cvar":
       return (None, e[2]) if isinstance(e[2], int) else (e[2][1], e[2][2] & mask(e[2][1]))
     if k == "lsel":
-      wi, i = self.ev(ip, e[3], env, st)
-      if not (0 <= i < e[2]): raise IRError("list index out of range")
-      r = dict(e[1]); r["sig"] = f"{r['sig']}[{i}]"
-      if len(e) > 4 and e[4] is not None: r["sl"] = list(e[4])
+      r = self._lsel_ref(ip, e, env, st)
       return self.read(ip, r, st)
     if k == "cast":
       w, v = self.ev(ip, e[2], env, st)
@@ -219,6 +216,20 @@ class Model:
       return wa
     if wa != wb: raise IRError(f"width mismatch {wa} {wb}")
     return wa
+
+  def _lsel_ref(self, ip, e, env, st):
+    """["lsel", ref, dims, idx, sl?, fld?]: dims/idx are an int/expr (1-D) or lists (n-D)"""
+    dims = e[2] if isinstance(e[2], list) else [e[2]]
+    idxs = e[3] if isinstance(e[2], list) else [e[3]]
+    name = e[1]["sig"]
+    for dm, ie in zip(dims, idxs):
+      wi, i = self.ev(ip, ie, env, st)
+      if not (0 <= i < dm): raise IRError("list index out of range")
+      name += f"[{i}]"
+    r = dict(e[1]); r["sig"] = name
+    if len(e) > 5 and e[5]: r["fld"] = list(e[5])
+    if len(e) > 4 and e[4] is not None: r["sl"] = list(e[4])
+    return r
 
   # -- statements ---------------------------------------------------------
   def run_stmts(self, ip, stmts, env, rd, wr):
@@ -405,12 +416,17 @@ def static_rw(m, ip, stmts):
         reads.update(rng(e[1])); ex(e[2])
     elif k == "slice_lv": reads.update(rng(e[1]))
     elif k == "lsel":
-      # a literal index names one element; any other index may read every element
-      for i in ([e[3][1]] if e[3][0] == "lit" else range(e[2])):
-        r = dict(e[1]); r["sig"] = f"{r['sig']}[{i}]"
+      # a literal index names one element; any other index may read every element of that dimension
+      import itertools
+      dims = e[2] if isinstance(e[2], list) else [e[2]]
+      idxs = e[3] if isinstance(e[2], list) else [e[3]]
+      choices = [[ie[1]] if ie[0] == "lit" else list(range(dm)) for dm, ie in zip(dims, idxs)]
+      for combo in itertools.product(*choices):
+        r = dict(e[1]); r["sig"] = r["sig"] + "".join(f"[{i}]" for i in combo)
+        if len(e) > 5 and e[5]: r["fld"] = list(e[5])
         if len(e) > 4 and e[4] is not None: r["sl"] = list(e[4])
         reads.update(rng(r))
-      ex(e[3])
+      for ie in idxs: ex(ie)
     elif k in ("const", "lit", "lv", "tmp", "tmpsl", "cvar"): pass
     elif k == "bin": ex(e[2]); ex(e[3])
     elif k in ("shl", "shr"): ex(e[1]); ex(e[2])
